@@ -1,7 +1,7 @@
 (* C01 — paragraphs sit at depth 4 in every view, for every document.
    Statements only; proofs in proofs/ShapeFacts.v. *)
-From Coq Require Import List Arith.
-From D2P Require Import Str Err Xml Merge Collector Walk Iter Output Paths Package Content ShapeFacts ViewFacts PkgShape PyVal Source SourceBase SourceViews.
+From Coq Require Import List Arith ZArith.
+From D2P Require Import Str Err Xml Merge Collector Walk Iter Output Paths Package Content ShapeFacts ViewFacts PkgShape PyVal Source SourceBase SourceViews SourceDepth PyHeap SourceHeap SourceCaret SourceCaret2.
 Import ListNotations.
 
 (* for EVERY element tree (any nesting of paragraphs, tables, wrappers,
@@ -85,3 +85,101 @@ Theorem C01_source_join_runs : forall t,
   S__join_runs (enc_rose VStr t) = lift_rose VStr (join_runs t).
 Proof. exact src_join_runs. Qed.
 Print Assumptions C01_source_join_runs.
+
+(* docx_text._get_elem_depth AS TRANSLATED FROM THE PYTHON SOURCE - the level-by-level
+   (breadth-first) search for the nearest w:p, `max(4 - depth, 1)`, None for w:document / w:body -
+   equals the model's elem_depth (minimum distance to a descendant paragraph), for EVERY element
+   tree, given fuel above its height *)
+Theorem C01_source_get_elem_depth : forall t fuel,
+  (height t + 2 <= fuel)%nat ->
+  S__get_elem_depth fuel (enc_anode t) = Ok (enc_depth (elem_depth t)).
+Proof. exact src_get_elem_depth. Qed.
+Print Assumptions C01_source_get_elem_depth.
+
+(* hence the depth the SOURCE computes is None or within 1..4: the caret is never asked to go
+   anywhere else *)
+Theorem C01_source_elem_depth_range : forall t fuel v,
+  (height t + 2 <= fuel)%nat ->
+  S__get_elem_depth fuel (enc_anode t) = Ok v ->
+  v = VNone \/ exists n, v = VInt (Z.of_nat n) /\ (1 <= n <= 4)%nat.
+Proof. exact src_get_elem_depth_range. Qed.
+Print Assumptions C01_source_elem_depth_range.
+
+(* THE ALIAS STACK IS THE RIGHTMOST SPINE - about the source text.  The caret methods of
+   depth_collector.DepthCollector are translated from the Python source with a HEAP embedding
+   (gen/SourceHeap.v, model/PyHeap.v: lists and objects live in a heap, `_rightmost_branches`
+   holds references into the nested list `tree`).  [rep] (proofs/SourceCaret.v) is the
+   abstraction function from heap states onto the model's collector state, defined exactly on
+   the heaps where branch k+1 is the last item of branch k's list; [refines] says: the method
+   returns, the new heap is again represented, by the model function's result (same exception
+   otherwise). *)
+(* DepthCollector.__init__ AS TRANSLATED FROM THE SOURCE with the heap embedding: a fresh collector represents the model's initial state (caret depth 1, empty tree) *)
+Theorem C01_source_init : forall (leaf_of : pv -> option par), forall h a cls fs c1 c2 fmt,
+    h_get a h = Some (HObj cls fs) ->
+    let file := VObj c1 [([99;111;110;116;101;120;116]%N,
+                          VObj c2 [([120;109;108;50;104;116;109;108;95;102;111;114;109;97;116]%N, fmt)])] in
+    exists h', S_H_init (VRef a) file h = HOk VNone h'
+               /\ rep leaf_of h' (VRef a) = Some (core_of init_cst).
+Proof. exact src_init. Qed.
+Print Assumptions C01_source_init.
+
+(* caret_depth = len(_rightmost_branches) is the model's caret depth *)
+Theorem C01_source_caret_depth : forall (leaf_of : pv -> option par), forall h self k,
+    rep leaf_of h self = Some k ->
+    S_H_caret_depth self h = HOk (VInt (Z.of_nat (k_depth k))) h.
+Proof. exact src_caret_depth. Qed.
+Print Assumptions C01_source_caret_depth.
+
+(* _drop_caret: appending a new list to the innermost branch and pushing THAT VERY LIST on the alias stack is the model's spine_app at the caret depth; CaretDepthError at paragraph depth - the alias stack stays the rightmost spine *)
+Theorem C01_source_drop_caret : forall (leaf_of : pv -> option par), forall h self s,
+    rep leaf_of h self = Some (core_of s) ->
+    refines leaf_of (S_H_drop_caret self) self h (drop_caret s).
+Proof. exact src_drop_caret. Qed.
+Print Assumptions C01_source_drop_caret.
+
+(* _raise_caret: dropping the last alias (the slice makes a new stack list) *)
+Theorem C01_source_raise_caret : forall (leaf_of : pv -> option par), forall h self s,
+    rep leaf_of h self = Some (core_of s) ->
+    refines leaf_of (S_H_raise_caret self) self h (raise_caret s).
+Proof. exact src_raise_caret. Qed.
+Print Assumptions C01_source_raise_caret.
+
+(* _set_in_lineage(index, value): slot index of the lineage register, nothing else (tuple slices + itertools.chain) *)
+Theorem C01_source_set_in_lineage : forall (leaf_of : pv -> option par), forall h self s idx v l,
+    rep leaf_of h self = Some (core_of s) -> (1 <= idx <= 4)%nat ->
+    set_in_lineage idx v (c_lineage s) = Ok l ->
+    exists h', S_H_set_in_lineage self (VInt (Z.of_nat idx)) (enc_ostr v) h = HOk VNone h'
+               /\ rep leaf_of h' self = Some (core_of (set_lin l s)) /\ objs_kept h h'.
+Proof. exact src_set_in_lineage. Qed.
+Print Assumptions C01_source_set_in_lineage.
+
+(* set_caret(depth, elem), the recursion of the source (one level per call), refines the model's set_caret for every represented state and every target depth 1..4 *)
+Theorem C01_source_set_caret : forall (leaf_of : pv -> option par) h self s d name fuel,
+  rep leaf_of h self = Some (core_of s) -> (c_depth s <= 4)%nat -> (8 <= fuel)%nat ->
+  match d with Some n => (1 <= n <= 4)%nat | None => True end ->
+  refines leaf_of (S_H_set_caret fuel self (enc_depth_arg d) (enc_elem name)) self h
+          (set_caret d name s).
+Proof. exact src_set_caret. Qed.
+Print Assumptions C01_source_set_caret.
+
+(* conclude_paragraph: pop the open paragraph, caret to paragraph depth, append the record to the innermost branch = the model's spine_app at depth 4: PARAGRAPHS ARE APPENDED ONLY AT DEPTH 4, through the alias *)
+Theorem C01_source_conclude_paragraph : forall (leaf_of : pv -> option par) h self s fuel,
+  rep leaf_of h self = Some (core_of s) -> (c_depth s <= 4)%nat -> (8 <= fuel)%nat ->
+  refines leaf_of (S_H_conclude_paragraph fuel self) self h (conclude_paragraph s).
+Proof. exact src_conclude_paragraph. Qed.
+Print Assumptions C01_source_conclude_paragraph.
+
+(* the caret never leaves 1..4 *)
+Theorem C01_source_caret_depth_bounded : forall s d name s',
+    (1 <= c_depth s <= 4)%nat -> match d with Some n => (1 <= n <= 4)%nat | None => True end ->
+    set_caret d name s = Ok s' -> (1 <= c_depth s' <= 4)%nat.
+Proof. exact caret_depth_bounded. Qed.
+Print Assumptions C01_source_caret_depth_bounded.
+
+(* a represented state always has a spine as deep as the caret: the alias stack IS the rightmost spine of the tree *)
+Theorem C01_source_spine_ok : forall (leaf_of : pv -> option par), forall h self s x,
+    rep leaf_of h self = Some (core_of s) ->
+    exists t, spine_app (c_depth s) x (c_tree s) = Ok t.
+Proof. exact src_spine_ok. Qed.
+Print Assumptions C01_source_spine_ok.
+
